@@ -613,11 +613,44 @@ def state_si(ua):
     return [Fraction(float(v)) * f for v in ua.value]
 
 
+# every accepted spelling of the units key (rdsystem / rdnetwork / species / reaction / space / node / edge / script dictionaries)
+UNITS_ALIASES = ["units", "units", "units", "units", "u", "units_system", "units system", "u"]
+
+
+def spell_units_keys(desc, used=None):
+    """a deep copy of a description in which the "units" key of every level is spelled with one of its accepted aliases, chosen
+    deterministically from the position and content of the level (no random draw: the same description is always spelled the
+    same way, also at replay).  The harness-side description keeps the canonical key.  `used` collects (path, alias)."""
+    import zlib
+
+    def walk(d, path):
+        if isinstance(d, list):
+            return [walk(v, "%s[%d]" % (path, k)) for k, v in enumerate(d)]
+        if not isinstance(d, dict):
+            return d
+        out = {}
+        for k, v in d.items():
+            if k == "units" and "value" not in d:
+                alias = UNITS_ALIASES[zlib.crc32(("%s|%r" % (path, v)).encode("utf-8")) % len(UNITS_ALIASES)]
+                if used is not None and alias != "units":
+                    used.append((path or "top", alias))
+                out[alias] = v
+            else:
+                out[k] = walk(v, path + "/" + str(k))
+        return out
+    return walk(desc, "")
+
+
+def spelled_levels(desc):
+    used = []
+    spell_units_keys(desc, used)
+    return ", ".join("%s: '%s'" % (p_, a) for p_, a in used) or "all 'units'"
+
+
 def build_system(desc, parent=DEFAULT_SYS):
-    import copy
     import strengths as st
     from strengths.units import UnitsSystem
-    return st.rdsystem_from_dict(copy.deepcopy(desc), UnitsSystem(*parent))
+    return st.rdsystem_from_dict(spell_units_keys(desc), UnitsSystem(*parent))
 
 
 def us_obj(s):
